@@ -308,6 +308,8 @@ def crash_sig(case, text):
     return None
 
 FAMILIES = [dict(name='density', harness='drv_density.cpp', extract='Extract_density.v', model='model_density', gen=gen, oracle=oracle,
+                 impl_timeout=120,   # a quick run takes ~10 s; a compaction loop that never terminates must be reported promptly
+                
                  crash_sig=crash_sig)]
 
 MANIFEST = dict(
